@@ -255,7 +255,7 @@ def _strategy():
     from hypothesis import strategies as st
     extra = st.fixed_dictionaries({}, optional={
         "stop_signal": st.sampled_from([15, 2, 3, 10, 1]),
-        "graceful_timeout": st.sampled_from([0.1, 0.25, 0.3, 1.0, 2.05]),
+        "graceful_timeout": st.sampled_from([0.1, 0.25, 0.3, 1.0, 2.05, 0]),
         "stop_children": st.booleans(),
         "max_age": st.sampled_from([0, 1]),
     })
@@ -283,6 +283,7 @@ def _strategy():
             opt = draw(st.sampled_from(
                 [{"stop_signal": 2}, {"stop_signal": 15},
                  {"graceful_timeout": 0.25}, {"graceful_timeout": 0.1},
+                 {"graceful_timeout": 0},
                  {"stop_signal": 10, "graceful_timeout": 0.3}]))
             c["ops"].insert(pos, ["req", "set", {
                 "name": draw(st.sampled_from(names)), "options": opt}])
